@@ -12,7 +12,11 @@ and from the environment they run in: cw20-base 1.0.0 (transfer / send / transfe
 burn_from / increase_allowance / decrease_allowance) and the cw-multi-test 0.16.1 bank + dispatcher (attached funds are moved before the
 contract runs; sub-messages run depth-first in order; any failure reverts the whole transaction).
 
-Addresses and denoms are `Nat` identifiers.  Every handler computes from the world at handler entry
+Addresses and denoms are `Nat` identifiers; `badAddr` marks the identifiers that stand for address strings rejected by
+`deps.api.addr_validate`, and the handlers fail exactly where the contracts validate a user-supplied string (pair:
+`Swap { to }` on both entry points and the cw20 sender of `WithdrawLiquidity`; the receiver of a provision in the LP
+token's `Mint`; router: `to` / `receiver` of its three messages and the cw20 sender of its hook; factory: the new owner
+of `UpdateConfig`).  Every handler computes from the world at handler entry
 (funds already credited) and then applies the messages of its response in order, exactly as the
 dispatcher does; since no contract here uses `reply_on: Error`, a transaction is `World → M World`
 and failure leaves the world unchanged (`step`).
@@ -73,9 +77,28 @@ structure World where
   tokenCode : Nat := 0                 -- factory `Config.token_code_id`
   envPairCode : Nat := 0               -- environment: the code id under which the pair contract is stored
   envTokenCode : Nat := 0              -- environment: the code id of cw20-base
+  badAddr : Nat → Bool := fun _ => false  -- environment: this account id is a string that fails `addr_validate`
 
 /-- default commission rate 0.3% (`DEFAULT_COMMISSION_RATE`) -/
 def defaultCommission : Nat := 3000000000000000
+
+/-! ### address validation
+
+User-supplied address strings are checked with `deps.api.addr_validate`, which rejects a string that is too short
+or not normalised (e.g. an upper-case spelling).  `badAddr a` says that the account id `a` stands for such a string;
+it is a fact of the environment that no operation changes.  The ledger primitives do not look at it. -/
+
+/-- an optional address string that fails `addr_validate` -/
+def badTo (w : World) (to : Option Nat) : Bool :=
+  match to with
+  | some a => w.badAddr a
+  | none => false
+
+/-- `deps.api.addr_validate(&a)?` -/
+def validAddr (w : World) (a : Nat) : M Unit := if w.badAddr a then .error .err else .ok ()
+
+/-- `if let Some(a) = to { Some(api.addr_validate(&a)?) } else { None }` (router: `optional_addr_validate`) -/
+def validTo (w : World) (to : Option Nat) : M Unit := if badTo w to then .error .err else .ok ()
 
 /-! ### ledger primitives -/
 
@@ -311,11 +334,13 @@ def pairReceive (w : World) (p t from_ amount : Nat) (h : Hook) : M (World × Ou
         -- repair of D2: the offered asset must be the token that sent this hook
         else if offer ≠ .token t then .error .mismatch
         else do
+          validTo w to                    -- `Some(deps.api.addr_validate(to_addr.as_str())?)`
           let (w', o) ← pairSwap w p P [] from_ offer amt belief ms to
           return (w', .swap o)
     | .withdraw =>
       if t ≠ P.lp then .error .unauthorized
       else do
+        validAddr w from_                 -- `deps.api.addr_validate(cw20_msg.sender.as_str())?`
         let (w', x0, x1) ← pairWithdraw w p P from_ amount
         return (w', .withdraw x0 x1)
     | _ => .error .err
@@ -351,6 +376,9 @@ def pairProvide (w : World) (p : Nat) (P : PairSt) (sender : Nat) (funds : List 
     let w1 ← (match P.a0 with | .token t => tokTransferFrom w t p sender p d0 | .native _ => pure w : M World)
     let w2 ← (match P.a1 with | .token t => tokTransferFrom w1 t p sender p d1 | .native _ => pure w1 : M World)
     let w3 ← (if S = 0 then tokMint w2 P.lp p P.lp 1 else pure w2 : M World)
+    -- the pair does not validate `receiver`; the LP token's `Mint { recipient }` does
+    -- (cw20-base `execute_mint`: `deps.api.addr_validate(&recipient)?`), so the mint message fails
+    validTo w3 receiver
     let w4 ← tokMint w3 P.lp p rcv share'
     return (w4, share')
 
@@ -386,6 +414,7 @@ def pairExec (w : World) (sender p : Nat) (funds : List (Nat × Nat)) (m : PairM
       (match offer with
        | .token _ => .error .unauthorized
        | .native _ => do
+         validTo w0 to                    -- `Some(deps.api.addr_validate(&to_addr)?)`
          let (w', o) ← pairSwap w0 p P funds sender offer amt belief ms to
          return (w', .swap o))
     | .receive from_ amount h => pairReceive w0 p sender from_ amount h
@@ -502,6 +531,7 @@ def facAddDecimals (w : World) (sender denom decimals : Nat) : M World :=
 /-- `execute_update_config`: each given field replaces the stored one -/
 def facUpdateConfig (w : World) (sender : Nat) (newOwner tokenCode pairCode : Option Nat) : M World :=
   if sender ≠ w.owner then .error .unauthorized
+  else if badTo w newOwner then .error .err       -- `let _ = deps.api.addr_validate(&owner)?;` (after the permission check)
   else .ok { w with owner := newOwner.getD w.owner, tokenCode := tokenCode.getD w.tokenCode,
                     pairCode := pairCode.getD w.pairCode }
 
@@ -597,17 +627,25 @@ inductive RouterMsg
   deriving Repr, Inhabited
 
 def routerReceive (name : Asset → String) (w : World) (from_ : Nat) (h : Hook) : M World :=
-  match h with
-  | .routerOps ops min_ to => routerSwapOps name w from_ ops min_ to
+  if w.badAddr from_ then .error .err              -- `deps.api.addr_validate(&cw20_msg.sender)?` (before the payload is parsed)
+  else match h with
+  | .routerOps ops min_ to => do
+    validTo w to                                   -- `optional_addr_validate(api, to)?`
+    routerSwapOps name w from_ ops min_ to
   | _ => .error .err
 
 def routerExec (name : Asset → String) (w : World) (sender : Nat) (funds : List (Nat × Nat)) (m : RouterMsg) :
     M World := do
   let w0 ← attach w sender w.router funds
   match m with
-  | .swapOps ops min_ to => routerSwapOps name w0 sender ops min_ to
-  | .swapOp o a to => routerHop w0 sender o a to
+  | .swapOps ops min_ to => do
+    validTo w0 to                                  -- `optional_addr_validate(api, to)?`
+    routerSwapOps name w0 sender ops min_ to
+  | .swapOp o a to => do
+    validTo w0 to                                  -- `optional_addr_validate(api, to)?` (before the self-call check)
+    routerHop w0 sender o a to
   | .assertMin a prev min_ rcv => do
+    validAddr w0 rcv                               -- `deps.api.addr_validate(&receiver)?` (before the self-call check)
     routerAssertMin w0 sender a prev min_ rcv
     pure w0
   | .receive from_ _ h => routerReceive name w0 from_ h
